@@ -61,6 +61,15 @@ def gen_case(rng, cid):
     c['monitors'] = [{'included': rng.random() < 0.5,
                       'periods': [rng.choice([0.5, 1, 3, 100, 777.25, 0]) * tx * rng.choice([1, 100]) for _ in range(rng.randint(1, 25))]}
                      for _ in range(rng.choice([0, 1, 1, 2]))]
+    if rng.random() < 0.35:
+        # a second scheduler of the same kind in the same Environment: another table over the same ids, another rate, its own traffic
+        # (fractional sizes too) and its own Monitor - the counters and samples of the first are about the first
+        keys = [k for k, _ in c['table']]
+        c['peer'] = {'rate': rng.choice([8.0, 64.0, 1000.0, 8000.0]),
+                     'table': [[k, rng.choice([1, 2, 3, 4]) if kind != 'vc' else rng.choice([0.125, 0.5, 1.0, 2.0])] for k in reversed(keys)],
+                     'script': [(rng.choice([0, 0, 1, 2, 64, 100.5]) * tx, [(rng.choice(flows), size()) for _ in range(rng.choice([1, 2, 3, 5]))])
+                                for _ in range(rng.randint(1, 8))],
+                     'monitor': rng.random() < 0.5}
     return c
 
 
@@ -131,6 +140,30 @@ def run_case(c, max_steps=40000):
 
     for script in c['sources']:
         env.process(source(script))
+    peer = None
+    if c.get('peer'):
+        pc = dict(c, rate=c['peer']['rate'], table=c['peer']['table'], flows=list(reversed(c['flows'])))
+        with quiet():
+            peer = build(env, pc)
+        pin, pout = [], []
+
+        class POut:
+            def put(self, packet):
+                pout.append(packet)
+        peer.out = POut()
+
+        def psource():
+            for d, burst in c['peer']['script']:
+                yield env.timeout(d)
+                for f, z in burst:
+                    q = Packet(env.now, z, 9000 + len(pin), src='peer', flow_id=f)
+                    pin.append(q)
+                    with quiet():
+                        peer.put(q)
+        env.process(psource())
+        if c['peer']['monitor']:
+            pp = [tx_ for tx_ in (0.5, 1, 3, 1, 0.25, 7)]
+            Monitor(env, peer, lambda: (pp.pop(0) * 8.0 / c['rate']) if pp else INF, True)
     mons = []
     for mc in c.get('monitors') or []:
         periods = list(mc['periods'])
@@ -175,6 +208,13 @@ def run_case(c, max_steps=40000):
             fails.append({'what': f'{c["kind"]}: the simulation ran out of events with {left} (packets, bytes) per flow never transmitted',
                           'signature': 'sched-exactly-once-fractional'})
         compare('when the simulation ran out of events')
+    if peer is not None:
+        stats['cases with a peer scheduler in the same Environment'] += 1
+        stats['peer scheduler: packets'] += len(pin)
+        if not fails and steps < max_steps and [id(q) for q in pin if id(q) not in {id(x) for x in pout}]:
+            fails.append({'what': f'{c["kind"]}: a second scheduler of the same kind in the same Environment (table {c["peer"]["table"]}) was handed '
+                                  f'{len(pin)} packets and transmitted {len(pout)} when the simulation ran out of events',
+                          'signature': 'sched-exactly-once-fractional'})
     return fails, stats
 
 
